@@ -485,3 +485,159 @@ func c14r4(rc *core.RC) {
 		})
 	}
 }
+
+// ---- C14.R5 a recursive back-reference jumps to the program of its own type ----
+
+// linkRecursiveCode resolves each OpRecursive of a compilation. Whatever it stores into the
+// back-reference's Jmp (a fresh copy or an earlier one) must have been looked up under a key derived
+// from that back-reference's own Type; a copy remembered in a plain variable from an earlier
+// iteration belongs to whichever type came first.
+func c14r5(rc *core.RC) {
+	p := rc.P
+	fd := p.Func("encoder", "Compiler.linkRecursiveCode")
+	if fd == nil {
+		rc.Unknown("encoder.linkRecursiveCode", token.NoPos, "not found")
+		return
+	}
+	rc.Touch("encoder.(*Compiler).linkRecursiveCode")
+	info := p.Info(fd)
+	var loop *ast.RangeStmt
+	ast.Inspect(fd.Body, func(m ast.Node) bool {
+		if r, ok := m.(*ast.RangeStmt); ok && loop == nil && strings.Contains(types.ExprString(r.X), "recursiveCodes") {
+			loop = r
+		}
+		return true
+	})
+	if loop == nil || loop.Value == nil {
+		rc.Unknown("encoder.linkRecursiveCode/loop", fd.Pos(), "the loop over the compilation's back-references was not found")
+		return
+	}
+	ref := core.ObjOf(info, loop.Value)
+	// keys derived from ref.Type
+	typeKeys := map[types.Object]bool{}
+	derivesFromType := func(e ast.Expr) bool {
+		found := false
+		ast.Inspect(e, func(k ast.Node) bool {
+			switch x := k.(type) {
+			case *ast.SelectorExpr:
+				if x.Sel.Name == "Type" && core.ObjOf(info, x.X) == ref {
+					found = true
+				}
+			case *ast.Ident:
+				if typeKeys[info.Uses[x]] {
+					found = true
+				}
+			}
+			return true
+		})
+		return found
+	}
+	// variables whose every definition is a lookup keyed by the type (M[k], v, ok := M[k]) or derived from such
+	keyed := map[types.Object]bool{}
+	for round := 0; round < 4; round++ {
+		ast.Inspect(loop.Body, func(m ast.Node) bool {
+			as, ok := m.(*ast.AssignStmt)
+			if !ok || len(as.Rhs) == 0 {
+				return true
+			}
+			r := core.Unparen(as.Rhs[0])
+			lo := core.ObjOf(info, as.Lhs[0])
+			if lo == nil {
+				return true
+			}
+			if derivesFromType(r) {
+				if _, isIx := r.(*ast.IndexExpr); isIx {
+					keyed[lo] = true
+				} else if _, isCall := r.(*ast.CallExpr); isCall || true {
+					// typeptr := uintptr(unsafe.Pointer(recursive.Type))
+					if _, isIx := r.(*ast.IndexExpr); !isIx {
+						typeKeys[lo] = true
+					}
+				}
+			}
+			// derived from a keyed variable: code := copyOpcode(codes.First())
+			uses := false
+			ast.Inspect(r, func(k ast.Node) bool {
+				if id, ok := k.(*ast.Ident); ok && keyed[info.Uses[id]] {
+					uses = true
+				}
+				return true
+			})
+			if uses {
+				keyed[lo] = true
+			}
+			return true
+		})
+	}
+	// a variable also assigned outside this chain (e.g. carried over from an earlier iteration) is not keyed
+	ast.Inspect(fd.Body, func(m ast.Node) bool {
+		as, ok := m.(*ast.AssignStmt)
+		if !ok || len(as.Rhs) == 0 {
+			return true
+		}
+		for i, l := range as.Lhs {
+			lo := core.ObjOf(info, l)
+			if lo == nil || !keyed[lo] {
+				continue
+			}
+			r := as.Rhs[0]
+			if len(as.Rhs) == len(as.Lhs) {
+				r = as.Rhs[i]
+			}
+			ok := derivesFromType(r)
+			ast.Inspect(r, func(k ast.Node) bool {
+				if id, isId := k.(*ast.Ident); isId && keyed[info.Uses[id]] && info.Uses[id] != lo {
+					ok = true
+				}
+				return true
+			})
+			if !ok {
+				delete(keyed, lo)
+			}
+		}
+		return true
+	})
+	// what is stored into the back-reference
+	n := 0
+	ast.Inspect(loop.Body, func(m ast.Node) bool {
+		as, ok := m.(*ast.AssignStmt)
+		if !ok || len(as.Lhs) != 1 || len(as.Rhs) != 1 {
+			return true
+		}
+		l := core.Unparen(as.Lhs[0])
+		var src ast.Expr
+		// *recursive.Jmp = *X
+		if st, ok := l.(*ast.StarExpr); ok {
+			if f := core.FieldOf(info, st.X); f != nil && f.Name() == "Jmp" {
+				src = as.Rhs[0]
+			}
+		}
+		// compiled.Code = code (compiled := recursive.Jmp)
+		if f := core.FieldOf(info, l); f != nil && f.Name() == "Code" {
+			src = as.Rhs[0]
+		}
+		if src == nil {
+			return true
+		}
+		n++
+		key := fmt.Sprintf("encoder.linkRecursiveCode/jump-target#%d", n)
+		var root types.Object
+		ast.Inspect(src, func(k ast.Node) bool {
+			if id, ok := k.(*ast.Ident); ok && root == nil {
+				if v, ok := info.Uses[id].(*types.Var); ok && !v.IsField() {
+					root = v
+				}
+			}
+			return true
+		})
+		if root != nil && keyed[root] {
+			rc.OK(key, as.Pos(), "`%s` was looked up under the back-reference's own type", core.Src(p.Fset, src))
+		} else {
+			rc.Bad(key, as.Pos(), "the back-reference receives `%s`, which is not looked up under a key derived from %s.Type: with two recursive struct types in one program a value of one type is encoded by the program of the other", core.Src(p.Fset, src), ref.Name())
+		}
+		return true
+	})
+	if n < 2 {
+		rc.Unknown("encoder.linkRecursiveCode/jump-targets", fd.Pos(), "found %d stores into a back-reference's Jmp", n)
+	}
+}
